@@ -207,3 +207,11 @@ Example C04_nonvacuous :
   xargs0 (nul_list [[97;10;98]; [45;120]]) = [[97;10;98]; [45;120]] /\
   remote_push 3 [1;2] = false /\ remote_push 3 [1;2;3] = true.
 Proof. vm_compute. repeat split. Qed.
+
+(** The model the theorems above are about is the translation of src/bin/copia/plan.rs (needs_transfer, glob_match) as it is now: the function
+    generated from the source by tools/gen_logic.py (Gen/PlanGen.v) equals, on every input, Model/Plan.v needs_transfer and Model/Glob.v glob_match (the source's index-based loops are proved equal to the suffix-based loop)
+    (statement: Proofs/TiePlan.v, [plan_model_is_translation]). *)
+Require Copia.Proofs.TiePlan.
+Theorem C04_model_is_translation_of_source : TiePlan.plan_model_is_translation.
+Proof. exact TiePlan.plan_model_is_translation_holds. Qed.
+Print Assumptions C04_model_is_translation_of_source.
